@@ -138,6 +138,10 @@ Theorem C11_alt_prefix_order_refuted : simp_text t_prefix = "foo?" /\ differ t_p
 Proof. exact alt_prefix_order_refuted. Qed.
 Print Assumptions C11_alt_prefix_order_refuted.
 
+Theorem C11_alt_factoring_under_ungreedy_flag_refuted : simp_text t_prefix_U = "(?U:abc?)" /\ differ t_prefix_U (simp_ast t_prefix_U) "abc".
+Proof. exact alt_factoring_under_ungreedy_flag_refuted. Qed.
+Print Assumptions C11_alt_factoring_under_ungreedy_flag_refuted.
+
 Theorem C11_capture_under_zero_repeat_prefix_refuted : simp_text_prefix t_zero_cap = "b" /\ option_map (fun x => snd (fst x)) (den_top t_zero_cap) = Some 1 /\ option_map (fun x => snd (fst x)) (den_top (simp_ast_prefix t_zero_cap)) = Some 0.
 Proof. exact capture_under_zero_repeat_prefix_refuted. Qed.
 Print Assumptions C11_capture_under_zero_repeat_prefix_refuted.
